@@ -12,6 +12,7 @@ import (
 	"math/big"
 	"os"
 	"runtime"
+	"sort"
 	"sync"
 	"sync/atomic"
 	"time"
@@ -45,6 +46,7 @@ import (
 	"github.com/rs/zerolog"
 	"github.com/shopspring/decimal"
 	e2wtypes "github.com/wealdtech/go-eth2-wallet-types/v2"
+	"verif/checks/attcommon"
 	"verif/checks/ctlsim"
 	"verif/checks/refcfg"
 	"verif/checks/relaycommon"
@@ -422,10 +424,30 @@ func scenarioAccounts(c *harness.Ctx, rep int) {
 			}
 			stop.Store(true)
 		},
-		func() { // duty jobs
+		func() { // duty jobs; what they are given must be what one of the refreshes published, whole
 			for i := 0; !stop.Load(); i++ {
-				_, _ = mgr.ValidatingAccountsForEpoch(bg, 5)
+				got, err := mgr.ValidatingAccountsForEpoch(bg, 5)
 				_, _ = mgr.ValidatingAccountsForEpochByIndex(bg, 5, []phase0.ValidatorIndex{5001, 5010})
+				if err != nil || len(got) == 0 {
+					continue // before the first refresh
+				}
+				var idx []int
+				for v := range got {
+					idx = append(idx, int(v)-5000)
+				}
+				sort.Ints(idx)
+				lo := idx[0]
+				ok := len(idx) == 12 && (lo == 0 || lo == 4)
+				for k, x := range idx {
+					if x != lo+k {
+						ok = false
+					}
+				}
+				c.Count("account_lookups_judged", 1)
+				if !ok {
+					c.Violate("non-sequential-result:"+kind+"-validating-accounts", fmt.Sprintf("ValidatingAccountsForEpoch during refreshes that alternate between validators 0-11 and 4-15 returned %v: the set no refresh ever published", idx), c.CaseID(fmt.Sprintf("account-managers#%d", rep)), nil)
+					return
+				}
 			}
 		},
 		func() {
@@ -461,7 +483,7 @@ func scenarioStrategies(c *harness.Ctx, rep int) {
 	}
 	pc := &beaconblockproposer.ProposerConfig{}
 	for i := 0; i < 3; i++ {
-		rl := &harness.Relay{Addr: fmt.Sprintf("http://c17relay%d-%d.example.com/", rep, i), KeyNo: i, Start: time.Now(), Parent: phase0.Hash32{7}}
+		rl := &harness.Relay{Addr: fmt.Sprintf("http://c17relay%d-%d.example.com/", rep, i), KeyNo: i, Start: time.Now(), Parent: phase0.Hash32{7}, HasPubkey: true}
 		rl.Steps = append(rl.Steps, struct {
 			At  time.Duration
 			Bid *harness.BidSpec
@@ -469,7 +491,11 @@ func scenarioStrategies(c *harness.Ctx, rep int) {
 		}{0, &harness.BidSpec{Value: uint64(1000 * (i + 1)), Builder: i, Header: i}, false})
 		util.VerifSetBuilderClient(rl.Addr, rl)
 		pk := harness.RelayPub(i)
-		pc.Relays = append(pc.Relays, &beaconblockproposer.RelayConfig{Address: rl.Addr, PublicKey: &pk, MinValue: decimal.Zero})
+		rc := &beaconblockproposer.RelayConfig{Address: rl.Addr, PublicKey: &pk, MinValue: decimal.Zero}
+		if i > 0 {
+			rc.PublicKey = nil // the strategy learns (and caches) the key the relay announces
+		}
+		pc.Relays = append(pc.Relays, rc)
 	}
 	ad, err := adbest.New(bg, adbest.WithLogLevel(zerolog.Disabled), adbest.WithClientMonitor(nullmetrics.New()), adbest.WithProcessConcurrency(4),
 		adbest.WithAttestationDataProviders(map[string]eth2client.AttestationDataProvider{"a": adNode{}, "b": adNode{}}), adbest.WithTimeout(200*time.Millisecond), adbest.WithChainTime(clock), adbest.WithBlockRootToSlotCache(slotCache{}))
@@ -508,6 +534,16 @@ func scenarioStrategies(c *harness.Ctx, rep int) {
 	par(fs...)
 }
 
+// ---- attester: attestation jobs of one epoch released together ----
+
+func scenarioAttester(c *harness.Ctx, rep int) {
+	findings, requests := attcommon.Storm(c.Rand("attester-overlap", rep), 40)
+	c.Count("attester_sign_requests", int64(requests))
+	for _, f := range findings {
+		c.Violate("non-sequential-result:attester:"+f.Key, "overlapping attestation jobs of one epoch: "+f.What+" (no sequential order of the jobs does that)", c.CaseID(fmt.Sprintf("attester-overlap#%d", rep)), nil)
+	}
+}
+
 type scenario struct {
 	name string
 	f    func(c *harness.Ctx, rep int)
@@ -520,6 +556,7 @@ var scenarios = []scenario{
 	{"cache", scenarioCache},
 	{"account-managers", scenarioAccounts},
 	{"strategies-submitters", scenarioStrategies},
+	{"attester-overlap", scenarioAttester},
 }
 
 func run(c *harness.Ctx) {
@@ -551,14 +588,14 @@ func main() {
 	harness.Main(&harness.Spec{
 		Property: "C17",
 		Level:    "exploration",
-		Rule:     "six scenario programs under the Go race detector, one per child process, each repeated (quick 3x, thorough 20x at GOMAXPROCS 16/4/2): block relay (one config fetcher alternating legacy and v2 documents || three lookup goroutines || registration rounds || auctions || REST registrations and bid requests || proposal preparer), sync committee messenger (message job || head-event handler's reads and pruning), controller in virtual time (all due jobs and epoch ticker || one head-event stream with changing dependent roots || one block-event stream || shutdown poll and periodic refreshers), cache (block events || head events || lookups || cleaning), dirk / wallet account managers with the validators manager (refresh with changing validator sets || lookups), strategies and submitters under four concurrent callers. distinct = (scenario, repetition); every distinct racing function pair is a violation",
+		Rule:     "seven scenario programs under the Go race detector, one per child process, each repeated (quick 3x, thorough 20x at GOMAXPROCS 16/4/2): block relay (one config fetcher alternating legacy and v2 documents || three lookup goroutines || registration rounds || auctions || REST registrations and bid requests || proposal preparer), sync committee messenger (message job || head-event handler's reads and pruning), controller in virtual time (all due jobs and epoch ticker || one head-event stream with changing dependent roots || one block-event stream || shutdown poll and periodic refreshers), cache (block events || head events || lookups || cleaning), dirk / wallet account managers with the validators manager (refresh with changing validator sets || lookups), strategies and submitters under four concurrent callers, attestation jobs of one epoch released together. The account-manager lookups must return a validator set one of the refreshes published and the overlapping attestation jobs must sign once per validator (results of some sequential order). distinct = (scenario, repetition); every distinct racing function pair is a violation",
 		Batches: func(tier string) int {
 			if tier == "thorough" {
-				return 18
+				return 21
 			}
-			return 6
+			return 7
 		},
-		Parallel:    6,
+		Parallel:    7,
 		Run:         run,
 		MinDistinct: 12,
 		ChildTimeout: func(string) time.Duration { return 30 * time.Minute },
